@@ -527,7 +527,7 @@ impl Archive {
                 } else {
                     // If block table comes before hash table, calculate differently
                     let file_size = self.reader.get_ref().metadata()?.len();
-                    (file_size - hash_table_offset) as usize
+                    file_size.saturating_sub(hash_table_offset) as usize
                 };
 
                 if available_space < uncompressed_size {
@@ -822,6 +822,16 @@ impl Archive {
          -> Result<bool> {
             if size == 0 {
                 return Ok(true); // Empty table is valid
+            }
+
+            // The size comes from the header: a table that cannot fit into the file
+            // cannot match its digest (and must not drive an allocation)
+            let file_len = self.reader.get_ref().metadata()?.len();
+            if (self.archive_offset + offset)
+                .checked_add(size)
+                .is_none_or(|end| end > file_len)
+            {
+                return Ok(false);
             }
 
             // Read raw table data
@@ -1635,6 +1645,7 @@ impl Archive {
 
         if file_info.is_single_unit() || !file_info.is_compressed() {
             // Single unit or uncompressed file - read directly
+            self.ensure_stored_range(file_info.file_pos, file_info.compressed_size)?;
             let mut data = vec![0u8; file_info.compressed_size as usize];
             self.reader.read_exact(&mut data)?;
 
@@ -2118,6 +2129,7 @@ impl Archive {
 
         if file_info.is_single_unit() || !file_info.is_compressed() {
             // Single unit or uncompressed file - read directly
+            self.ensure_stored_range(file_info.file_pos, file_info.compressed_size)?;
             let mut data = vec![0u8; file_info.compressed_size as usize];
             self.reader.read_exact(&mut data)?;
 
@@ -2173,6 +2185,18 @@ impl Archive {
         }
     }
 
+    /// Make sure `len` stored bytes at `pos` can exist in the archive file before a
+    /// buffer of that size is allocated: sizes and positions come from untrusted tables.
+    fn ensure_stored_range(&self, pos: u64, len: u64) -> Result<()> {
+        let file_len = self.reader.get_ref().metadata()?.len();
+        match pos.checked_add(len) {
+            Some(end) if end <= file_len => Ok(()),
+            _ => Err(Error::invalid_format(format!(
+                "Stored data range (offset {pos}, {len} bytes) lies outside the archive file ({file_len} bytes)"
+            ))),
+        }
+    }
+
     /// Read a file that is split into sectors
     fn read_sectored_file(&mut self, file_info: &FileInfo, key: u32) -> Result<Vec<u8>> {
         let sector_size = self.header.sector_size();
@@ -2194,6 +2218,7 @@ impl Archive {
             file_info.file_pos
         );
 
+        self.ensure_stored_range(file_info.file_pos, offset_table_size as u64)?;
         let mut offset_data = vec![0u8; offset_table_size];
         self.reader.read_exact(&mut offset_data).map_err(|e| {
             log::error!("Failed to read offset table: {}", e);
@@ -2235,6 +2260,10 @@ impl Archive {
 
             if first_data_offset >= expected_crc_table_start + expected_crc_table_size {
                 // CRC table follows the offset table
+                self.ensure_stored_range(
+                    file_info.file_pos + offset_table_size as u64,
+                    expected_crc_table_size as u64,
+                )?;
                 let mut crc_data = vec![0u8; expected_crc_table_size];
                 self.reader.read_exact(&mut crc_data)?;
 
@@ -2269,12 +2298,15 @@ impl Archive {
             }
         }
 
-        // Read and decompress each sector
-        let mut decompressed_data = Vec::with_capacity(file_info.file_size as usize);
+        // Read and decompress each sector. The declared sizes are untrusted: reserve no
+        // more than the stored data could plausibly expand to, the vector grows as needed.
+        let mut decompressed_data = Vec::with_capacity(
+            (file_info.file_size as usize)
+                .min((file_info.compressed_size as usize).saturating_mul(4)),
+        );
 
-        // Pre-allocate a reusable buffer for sector reading
-        // Add some overhead for compression headers
-        let max_sector_size = sector_size + 1024;
+        // Reusable buffer for sector reading (grown on demand below)
+        let max_sector_size = (sector_size + 1024).min(file_info.compressed_size as usize + 1024);
         let mut sector_buffer = vec![0u8; max_sector_size];
 
         for i in 0..sector_count {
@@ -2301,6 +2333,10 @@ impl Archive {
 
             // Ensure our buffer is large enough
             if sector_size_compressed > sector_buffer.len() {
+                self.ensure_stored_range(
+                    file_info.file_pos + sector_start,
+                    sector_size_compressed as u64,
+                )?;
                 sector_buffer.resize(sector_size_compressed, 0);
             }
 
